@@ -232,6 +232,43 @@ def run_compose(ctx, res):
             res["violations"].append(v)
         if d:
             res["disagreements"].append(d)
+    if ctx.thorough:
+        exhaustive_small_scope(ctx, res)
+
+
+def exhaustive_small_scope(ctx, res, maxlen=5):
+    """thorough tier: EVERY caption list of length <= maxlen over three distinct spans (two sharing the start, two sharing
+    the end) x a grid of skews and offsets (offsets that drop nothing, land a start exactly on 0, drop the early spans):
+    stream 4 (text kept by merge, merge / adjust commute, guard) and stream 3 (composition with a second fixed step) -
+    a complement to the theorems: small scope, but complete."""
+    import itertools
+    dist = res["distribution"]
+    spans = [(1000, 2000), (1000, 3000), (2000, 3000)]
+    grid = [(sk, off) for sk in (0.5, 1, 2) for off in (0, 500, -500, -1000, -2000, 4096)]
+    cases = []
+    for n in range(0, maxlen + 1):
+        for combo in itertools.product(range(3), repeat=n):
+            langs = [[[spans[i][0], spans[i][1], 1, False] for i in combo]]
+            for sk, off in grid:
+                cases.append({"langs": langs, "sk": sk, "off": off})
+    for case, resp in zip(cases, oracle_batch([laws_request(c) for c in cases])):
+        res["evaluations"] += 1
+        v, d, info = eval_laws(case, resp)
+        bump(dist, "exhaustive_small_scope_laws_cases")
+        bump(dist, "exhaustive_small_scope_commute_checked", int(info.get("commute_checked", False)))
+        if v:
+            res["violations"].append(v)
+        if d:
+            res["disagreements"].append(d)
+    comp = [{"langs": c["langs"], "sk1": c["sk"], "off1": c["off"], "sk2": 2, "off2": -1024} for c in cases]
+    for case, resp in zip(comp, oracle_batch([compose_request(c) for c in comp])):
+        res["evaluations"] += 1
+        v, d, info = eval_compose(case, resp)
+        bump(dist, "exhaustive_small_scope_compose_cases")
+        if v:
+            res["violations"].append(v)
+        if d:
+            res["disagreements"].append(d)
 
 
 def replay(rec):
